@@ -233,18 +233,39 @@ def strip_comments(src):
     return re.sub(r"--.*", "", src)
 
 
-def scan_sources():
-    """textual scan of every .lean file of the project for forbidden constructs (comments removed)"""
-    hits = []
-    for root, _, files in os.walk(LEAN):
-        if ".lake" in root:
+def import_closure(modules):
+    """files of the project reachable from `modules` through `import MofunModel.…` lines"""
+    seen, todo = set(), list(modules)
+    while todo:
+        m = todo.pop()
+        if m in seen or not m.startswith("MofunModel"):
             continue
-        for f in files:
-            if f.endswith(".lean"):
-                p = os.path.join(root, f)
-                src = strip_comments(open(p).read())
-                for m in FORBIDDEN.finditer(src):
-                    hits.append("%s: %s" % (os.path.relpath(p, LEAN), m.group(0).strip()))
+        seen.add(m)
+        p = os.path.join(LEAN, *m.split(".")) + ".lean"
+        if os.path.exists(p):
+            for imp in re.findall(r"^\s*import\s+(MofunModel[\w.]*)", open(p).read(), flags=re.M):
+                todo.append(imp)
+    return sorted(seen)
+
+
+def scan_sources(modules=None):
+    """textual scan (comments removed) for forbidden constructs of every project file the given modules depend on
+    (all project files when `modules` is None)"""
+    hits = []
+    if modules is None:
+        paths = []
+        for root, _, files in os.walk(LEAN):
+            if ".lake" in root:
+                continue
+            paths += [os.path.join(root, f) for f in files if f.endswith(".lean")]
+    else:
+        paths = [os.path.join(LEAN, *m.split(".")) + ".lean" for m in import_closure(modules)]
+    for p in paths:
+        if not os.path.exists(p):
+            continue
+        src = strip_comments(open(p).read())
+        for m in FORBIDDEN.finditer(src):
+            hits.append("%s: %s" % (os.path.relpath(p, LEAN), m.group(0).strip()))
     return hits
 
 
